@@ -401,11 +401,14 @@ func (v *PacketDslFormattor) VisitMatchFieldDeclaration(ctx *gen.MatchFieldDecla
 
 		value := pairCtx.IDENTIFIER().GetText()
 		value = strings.TrimSpace(value) + ","
-		formattedDsl.WriteString(AddIndent4ln(fmt.Sprintf("%s : %s", key, value)))
+		pair := fmt.Sprintf("%s : %s", key, value)
+		// a trailing comment stays on the line of its pair (on a line of its own it would be
+		// lost by the next formatting pass when the pair is the last one)
 		lineComment = strings.TrimRight(v.getHiddenRightAtSameLine(pairCtx.GetStop()), "\n")
 		if lineComment != "" {
-			formattedDsl.WriteString(AddIndent4ln(lineComment))
+			pair += " " + lineComment
 		}
+		formattedDsl.WriteString(AddIndent4ln(pair))
 	}
 	formattedDsl.WriteString("}")
 	return formattedDsl.String()
